@@ -41,8 +41,10 @@ Got == {Ev.ret[i][1] : i \in DOMAIN Ev.ret}
 GetShapeOK == Ev.c \in DS
 BudgetsOK == Ev.wm => \A i \in DOMAIN Ev.ret :
                  \E r \in regs : Reaches(r.k, Ev.c, g) /\ r.p = Ev.ret[i][1] /\ r.mx = Ev.ret[i][2]
+(* skip: a look-up already reported in an earlier validation round (the harness re-validates the  *)
+(* rest of a history after a rejection, so that one finding does not hide what follows it)        *)
 GetOK == /\ GetShapeOK
-         /\ Filterable(Ev.c, g) => (Got = eff[Ev.c] /\ BudgetsOK)
+         /\ Ev.skip \/ (Filterable(Ev.c, g) => (Got = eff[Ev.c] /\ BudgetsOK))
 
 (* ---- contents ---- *)
 LinesOf(e) == [i \in DOMAIN e.lines |-> [blank |-> e.lines[i].blank, has |-> RngS(e.lines[i].has)]]
@@ -73,7 +75,7 @@ Apply ==
                    /\ regs' = regs \cup {[k |-> Ev.k, p |-> p, mx |-> Ev.mx] : p \in PatsOf(Ev)}
            /\ UNCHANGED <<g, FILTERS, cache, ret, nops, cvars, lastEff>>
       [] Ev.ev = "get" ->
-           /\ lastEff' = [lastEff EXCEPT ![Ev.c] = [set |-> TRUE, v |-> eff[Ev.c]]]
+           /\ lastEff' = [lastEff EXCEPT ![Ev.c] = [set |-> TRUE, v |-> Got]]      \* what the previous look-up returned
            /\ UNCHANGED <<vars, regs>>
       [] OTHER -> UNCHANGED <<vars, regs, lastEff>>
 
